@@ -332,6 +332,16 @@ def t2_cases(ctx, real, per, tagseed, only=None, extreme=False):
                 cases.append((fn, [rnd(p[0]), rnd(p[1]), rnd(y)]))
                 if fn in KIND and r.random() < 0.5:
                     cases.append((fn + "_", [rnd(p[0]), rnd(p[1]), rnd(y)]))
+        if fn in ("pow_real", "pow") and real != 4:
+            # directed: bases of very small and very large modulus (|z|^2 under- or overflows, z itself is an ordinary finite
+            # non-zero number) with exponents that keep the result in range - "all finite arguments away from poles"
+            for sc in (1e-170, 1e-200, 1e-300, 1e170, 1e250):
+                for bx, by in ((3.0, 4.0), (0.0, 1.0), (-5.0, 12.0), (1.0, 0.0), (-1.0, -1.0)):
+                    for ex in (0.5, -0.5, 1.0, -1.0, 0.25):
+                        if fn == "pow_real":
+                            cases.append((fn, [rnd(bx * sc), rnd(by * sc), rnd(ex)]))
+                        else:
+                            cases.append((fn, [rnd(bx * sc), rnd(by * sc), rnd(ex), 0.0]))
         if kind == "c2":
             for p in pts:
                 if fn == "pow":
